@@ -1,0 +1,16 @@
+//! Verification hooks, only compiled with the cargo feature `verif`.
+//!
+//! Add-only re-exports of otherwise crate-private items, so that an external
+//! harness can observe the lexer's token stream and the causes of a type error.
+pub use crate::parse::verif_lex::{tokenize, Lex, LexErr, LexResult, Token};
+
+use crate::check::result::TypeErr;
+use crate::common::position::Position;
+
+/// (position, message) of every cause attached to a type error.
+pub fn type_err_causes(err: &TypeErr) -> Vec<(Position, String)> {
+    err.verif_causes()
+        .iter()
+        .map(|c| (c.pos, c.msg.clone()))
+        .collect()
+}
